@@ -347,7 +347,9 @@ impl<'t, 'a> TyGen<'t, 'a> {
             11 | 12 => {
                 // record, possibly with operator field names and many fields (forces breaks)
                 let n = self.t.pick(7);
-                let names = ["x", "y", "value", "next_state", "(+)", "(<>)", "f", "a_rather_long_field_name", "k"];
+                // tuple-like names included: `{ _0 : a }`, `{ _0 : a, _01 : b }`, `{ _1 : a }`
+                // are records, only `_0, _1, ..` in order and closed is a tuple
+                let names = ["x", "y", "value", "next_state", "(+)", "(<>)", "f", "a_rather_long_field_name", "k", "_0", "_1", "_01", "_2"];
                 let mut used = vec![];
                 let mut fs = vec![];
                 for _ in 0..n {
@@ -358,6 +360,9 @@ impl<'t, 'a> TyGen<'t, 'a> {
                     used.push(nm);
                     if nm.starts_with('(') {
                         self.features.push("operator_field");
+                    }
+                    if nm.starts_with('_') {
+                        self.features.push("tuple_like_field_name");
                     }
                     fs.push(format!("{} : {}", nm, self.ty(depth - 1, 0)));
                 }
@@ -383,7 +388,11 @@ impl<'t, 'a> TyGen<'t, 'a> {
                 let r = format!("r{}", self.generics.len());
                 let f1 = self.ty(depth - 1, 0);
                 let f2 = self.ty(depth - 1, 0);
-                let s = format!("forall {} . {{ _0 : {}, _1 : {} | {} }} -> Int", r, f1, f2, r);
+                let s = match self.t.pick(4) {
+                    0 => format!("forall {} . {{ _0 : {} | {} }} -> Int", r, f1, r),
+                    1 => format!("forall {} . {{ | {} }} -> Int", r, r),
+                    _ => format!("forall {} . {{ _0 : {}, _1 : {} | {} }} -> Int", r, f1, f2, r),
+                };
                 paren(s, prec >= 1)
             }
             14 => {
@@ -419,13 +428,36 @@ fn gen_case(t: &mut Tape) -> (String, Vec<&'static str>) {
             0 => {
                 // variant
                 let nc = 1 + g.t.pick(3);
+                // GADT style (`| C : a -> b -> D p`): arguments stand left of an arrow, so a
+                // function or quantified argument needs its parentheses
+                let gadt = g.t.chance(1, 3);
+                if gadt {
+                    g.features.push("gadt_style_constructor");
+                }
+                let result = format!("{}{}", name, params.iter().map(|p| format!(" {}", p)).collect::<String>());
+                // a variant under a quantifier: `forall x . (| A x | B)`
+                let quantified = !gadt && g.t.chance(1, 6);
+                if quantified {
+                    g.features.push("forall_over_variant");
+                    g.generics.push("q0".to_string());
+                }
                 let mut s = String::new();
                 for c in 0..nc {
                     let na = g.t.pick(3);
-                    let args: Vec<String> = (0..na).map(|_| g.ty(1, 2)).collect();
-                    s.push_str(&format!("| C{}x{}{} ", k, c, args.iter().map(|a| format!(" {}", a)).collect::<String>()));
+                    if gadt {
+                        let args: Vec<String> = (0..na).map(|_| g.ty(2, 1)).collect();
+                        s.push_str(&format!("| C{}x{} : {}{} ", k, c, args.iter().map(|a| format!("{} -> ", a)).collect::<String>(), result));
+                    } else {
+                        let args: Vec<String> = (0..na).map(|_| g.ty(1, 2)).collect();
+                        s.push_str(&format!("| C{}x{}{} ", k, c, args.iter().map(|a| format!(" {}", a)).collect::<String>()));
+                    }
                 }
-                s
+                if quantified {
+                    g.generics.pop();
+                    format!("forall q0 . ({})", s.trim_end())
+                } else {
+                    s
+                }
             }
             1 => {
                 let f1 = g.ty(1, 0);
@@ -532,7 +564,26 @@ impl Property for C18 {
             let (alias, ann) = parse_back(&vm, &text);
             rows.push(json!({"width": w, "text": text, "alias": alias, "ann": ann, "lines": text.lines().count()}));
         }
-        json!({"want": want, "rows": rows})
+        // the definitions of the type fields of a module-like record (what documentation and
+        // generated declarations print for `type D = ..`), each rendered and read back on its own
+        let mut bodies = vec![];
+        {
+            use gluon::base::types::{remove_forall, type_field_iter, Type};
+            if let Type::Record(row) = &**remove_forall(&typ) {
+                for f in type_field_iter(row) {
+                    let body: ArcType = f.typ.unresolved_type().clone();
+                    let want = normalise_free(&canon(&body));
+                    let mut rows = vec![];
+                    for w in WIDTHS {
+                        let text = format!("{}", body.display::<()>(*w));
+                        let (alias, ann) = parse_back(&vm, &text);
+                        rows.push(json!({"width": w, "text": text, "alias": alias, "ann": ann, "lines": text.lines().count()}));
+                    }
+                    bodies.push(json!({"name": f.name.declared_name(), "want": want, "rows": rows}));
+                }
+            }
+        }
+        json!({"want": want, "rows": rows, "bodies": bodies})
     }
     fn judge(&self, case: &Value, obs: &Obs, kf: &KnownFindings) -> Judged {
         let mut j = Judged::pass();
@@ -565,12 +616,28 @@ impl Property for C18 {
             }
             return j;
         }
-        let want = v["want"].as_str().unwrap_or("");
         let feats: Vec<String> = serde_json::from_value(case["features"].clone()).unwrap_or_default();
+        let mut evals = 0;
+        // the type itself, then the definition of each of its type fields
+        // (the definitions first: the record around them may match a known finding, which ends
+        // the judgement of the case)
+        let mut subjects: Vec<(String, Value, String)> = vec![];
+        for b in v["bodies"].as_array().cloned().unwrap_or_default() {
+            subjects.push((
+                b["want"].as_str().unwrap_or("").to_string(),
+                b["rows"].clone(),
+                format!("definition of the type field `{}`: ", b["name"].as_str().unwrap_or("")),
+            ));
+        }
+        subjects.push((v["want"].as_str().unwrap_or("").to_string(), v["rows"].clone(), String::new()));
+        let (mut any_variant, mut any_tfield) = (false, false);
+        for (want, rows, label) in &subjects {
+        let want = want.as_str();
         let has_variant = want.contains("(variant");
         let has_tfield = want.contains("(tfield");
-        let mut evals = 0;
-        for row in v["rows"].as_array().cloned().unwrap_or_default() {
+        any_variant |= has_variant;
+        any_tfield |= has_tfield;
+        for row in rows.as_array().cloned().unwrap_or_default() {
             let text = row["text"].as_str().unwrap_or("");
             let width = row["width"].as_u64().unwrap_or(0);
             // a bare variant only parses as the right-hand side of a type alias
@@ -589,14 +656,23 @@ impl Property for C18 {
                     // an open tuple row is printed as `(a, b | r)`, which is not type syntax (KF-C18-02)
                     fs.push("open_tuple_row_printed_with_parentheses".into());
                 }
-                if has_tfield && text.contains("= |") {
+                // a variant under a quantifier is printed without its parentheses (KF-C18-03): the
+                // text has a `.` directly followed by the first `|` of the variant
+                {
+                    let squeezed: String = text.split_whitespace().collect::<Vec<_>>().join(" ");
+                    if want.contains("(variant") && squeezed.contains(". |") {
+                        fs.push("forall_over_variant_printed_bare".into());
+                    }
+                }
+                if has_tfield && (text.contains("= |") || text.contains("(|")) {
                     // a type field whose definition is a variant is printed as `T = | A | B`,
                     // which the type grammar does not accept inside a record (KF-C18-01)
                     fs.push("type_field_with_variant_body".into());
                 }
                 let problem = if let Some(e) = r.get("Err") {
                     Some(format!(
-                        "the rendering at width {} does not parse ({}): {}\nrendering:\n{}",
+                        "{}the rendering at width {} does not parse ({}): {}\nrendering:\n{}",
+                        label,
                         width,
                         ctx,
                         e.as_str().unwrap_or("").lines().take(6).collect::<Vec<_>>().join(" / "),
@@ -604,7 +680,8 @@ impl Property for C18 {
                     ))
                 } else if r["Ok"].as_str() != Some(want) {
                     Some(format!(
-                        "the rendering at width {} parses ({}) to another type\n original: {}\n parsed:   {}\nrendering:\n{}",
+                        "{}the rendering at width {} parses ({}) to another type\n original: {}\n parsed:   {}\nrendering:\n{}",
+                        label,
                         width,
                         ctx,
                         want,
@@ -626,6 +703,11 @@ impl Property for C18 {
                 j.nontrivial.push(fnv(format!("{}:{}", want, width).as_bytes()));
             }
         }
+        }
+        let (has_variant, has_tfield) = (any_variant, any_tfield);
+        if subjects.len() > 1 {
+            j.classes.push("f:type_field_definitions_read_back".into());
+        }
         j.evals = evals;
         for f in feats {
             j.classes.push(format!("f:{}", f));
@@ -644,7 +726,7 @@ impl Property for C18 {
     fn assumptions(&self) -> Vec<String> {
         vec![
             "parser-level comparison only (printed qualifiers such as `m.T` are compared by their last component, no name resolution)".into(),
-            "type fields of records are compared by name and number of parameters".into(),
+            "inside a record, type fields are compared by name and number of parameters; the definition of each type field of the top-level record is rendered and read back separately".into(),
             "sources the checker rejects (kind errors of the generator) are counted and skipped".into(),
         ]
     }
